@@ -24,7 +24,8 @@ StartOf(ge) ==
   ELSE InitM([a \in 1..ge.n |-> IF MOrders = "asc" THEN SortedSeq(Nbrs(ge.n, ge.E, a))
                                  ELSE Reverse(SortedSeq(Nbrs(ge.n, ge.E, a)))])
 
-MInit == m \in {StartOf(ge) : ge \in {x \in EdgeSets : DegOk(x)}}
+MInit == \E p \in MParts : \E X \in SUBSET p.free :
+            LET ge == [n |-> p.n, E |-> p.forced \cup X] IN DegOk(ge) /\ m = StartOf(ge)
 
 Build ==
   /\ m.pc = "build"
